@@ -416,7 +416,7 @@ func runLocal(r *vk.Run, c *localCfg) vk.Result {
 			}
 			if len(li.n.App.Commits) > 0 {
 				// committed: terminal for this search (the next height is explored from scripted prefixes)
-				return vk.Outcome{Key: "COMMITTED " + fmt.Sprintf("%x", li.n.App.Commits[0].Hash.Bytes()[:6]) + li.key()[:0]}
+				return vk.Outcome{Key: "COMMITTED " + fmt.Sprintf("%x", li.n.App.Commits[0].Hash.Bytes()[:6]), Terminal: true}
 			}
 			return vk.Outcome{Key: li.key()}
 		},
